@@ -117,7 +117,8 @@ def _matrix(data, layout, int_data, data_dtype=None):
     with np.errstate(invalid="ignore"):
         t = m.astype(dt)
     if not np.array_equal(t.astype(float), m, equal_nan=True):
-        raise ValueError(f"generator mistake: data not representable as {dt}")
+        _count("data-dtype-fallback:" + str(dt))      # the type cannot hold these cells: keep them as float64
+        return m
     return t
 
 
